@@ -428,6 +428,14 @@ func (w *World) runActor(a *ActorSpec) {
 }
 
 func (w *World) execOp(actor string, idx int, op *Op) {
+	if op.Hold != nil {
+		h := *op.Hold
+		if h.Max <= 0 {
+			h.Max = 2 * time.Second
+		}
+		w.S.SetHold(&h)
+		defer w.S.SetHold(nil)
+	}
 	switch op.Kind {
 	case "sleep":
 	case "request":
@@ -486,6 +494,9 @@ func (w *World) tgtOptions(op *Op) server.TargetOptions {
 	}
 	if o.HealthCheckConfig.Path == "" {
 		o.HealthCheckConfig.Path = "/up"
+	}
+	if hc.TargetTimeout != 0 {
+		o.ResponseTimeout = hc.TargetTimeout
 	}
 	if t := op.Tgt; t != nil {
 		if t.ResponseTimeout != 0 {
@@ -566,6 +577,7 @@ func (w *World) doCommand(actor string, idx int, op *Op) {
 	}
 	res.RetT = w.S.Now()
 	res.Ret = w.H.Add(e)
+	w.S.NotePoint("cmd.ret")
 }
 
 // ---- direct-mode requests --------------------------------------------------
